@@ -46,7 +46,7 @@ SPECS = {
     # a subtree whose value is TEXT FOLLOWED BY BITS, appended after data that is already bytes
     "bytes_then_text_bits": '<start> ::= <magic> <field>\n<magic> ::= b"\\xca\\xfe"\n<field> ::= <key> <flags>\n<key> ::= "k" | "q"\n<flags> ::= <bit>{8}\n<bit> ::= 0 | 1\n',
     # an UNBOUNDED run of bits followed by a text / bytes literal (the literal must only be tried at byte boundaries)
-    "bits_plus_then_text": '<start> ::= <bit>+ "a"\n<bit> ::= 0 | 1\n',
+    "bits_plus_then_text": '<start> ::= <bit>+ "a"\n<bit> ::= 0 | 1\n',      # (fuzzed trees may be unaligned: no bytes view)
     "constrained": '<start> ::= <d> "," <d>\n<d> ::= "1" | "2" | "x"\nwhere int(<d>) >= 1\n',
     "constrained_len": '<start> ::= <a>{1,4}\n<a> ::= "x" | "y"\nwhere len(str(<start>)) % 2 == 0\n',
 }
